@@ -154,6 +154,47 @@ def run(ck, tier):
     except factsmod.MissingAnchor as e:
         ck.missing_anchor(str(e), "C11.child-options-derived")
 
+    ck.rule("C11.signed-encoding", "every signed fixed-width encoding toggles the sign bit in encode and decode (two's-complement order != byte order), and the composite "
+            "interval encodings delegate every signed component to the primitive encoding (no raw to_be_bytes/from_be_bytes)", floor=14)
+    SIGNED = ["i8", "i16", "i32", "i64", "i128", "arrow_buffer::i256", "arrow_buffer::bigint::i256"]
+    COMPOSITE = {"arrow_buffer::IntervalDayTime": "arrow_buffer::interval::IntervalDayTime", "arrow_buffer::interval::IntervalDayTime": "arrow_buffer::interval::IntervalDayTime",
+                 "arrow_buffer::IntervalMonthDayNano": "arrow_buffer::interval::IntervalMonthDayNano", "arrow_buffer::interval::IntervalMonthDayNano": "arrow_buffer::interval::IntervalMonthDayNano"}
+    for im in c.impls:
+        if im.get("trait") != "arrow_row::fixed::FixedLengthEncoding":
+            continue
+        ty = im["self_ty"]
+        for meth in ("encode", "decode"):
+            item = [i for i in im["items"] if i.split("::")[-1] == meth]
+            if not item:
+                continue
+            fn = F.fn(item[0], required=False)
+            if fn is None or "mir" not in fn:
+                continue
+            b = Body(fn)
+            key = "%s::%s" % (ty, meth)
+            names = [flow.norm(callee(t) or "") for _, t in b.calls()]
+            if ty in SIGNED:
+                xor = any(st[0] == "a" and st[2][0] == "bin" and st[2][1] == "BitXor" and any(op[0] == "k" and re.match(r"^(128|0x80)_u8$", op[1]) for op in (st[2][2], st[2][3]))
+                          for bl in range(b.n) for st in b.stmts(bl))
+                deleg = any(n.endswith("FixedLengthEncoding::" + meth) or re.search(r"as arrow_row::fixed::FixedLengthEncoding>::%s$" % meth, callee(t) or "") for n, (_, t) in zip(names, b.calls()))
+                if xor or deleg:
+                    ck.ok("C11.signed-encoding", key, "sign bit toggled" if xor else "delegates to a signed encoding")
+                else:
+                    ck.bad("C11.signed-encoding", key, "%s for the signed type %s does not toggle the sign bit: negative values sort after positive ones" % (meth, ty), "%s:%s" % (fn["file"], fn["line"]))
+            elif ty in COMPOSITE:
+                try:
+                    adt = F.adt(COMPOSITE[ty])
+                    nfields = len(adt["variants"][0]["fields"])
+                except factsmod.MissingAnchor:
+                    nfields = None
+                dels = [t for _, t in b.calls() if re.search(r"FixedLengthEncoding>::%s$|FixedLengthEncoding::%s$" % (meth, meth), callee(t) or "")]
+                raw = [n for n in names if re.search(r"::(to_be_bytes|from_be_bytes|to_le_bytes|from_le_bytes)$", n)]
+                if nfields is not None and len(dels) == nfields and not raw:
+                    ck.ok("C11.signed-encoding", key, "%d components, each through the primitive signed encoding" % nfields)
+                else:
+                    ck.bad("C11.signed-encoding", key, "%s of %s handles %s component(s) through the signed primitive encoding, expected %s, raw byte conversions: %s - a component "
+                           "written without the sign-bit toggle orders negative values after positive ones" % (meth, ty, len(dels), nfields, raw), "%s:%s" % (fn["file"], fn["line"]))
+
     ck.rule("C11.same-converter-asserted", "convert_rows and Rows::push assert Arc::ptr_eq(row.config.fields, self fields) (the safety argument of the unsafe decode)", floor=2)
     for iid, fid in (("rows-push", "arrow_row::Rows::push"), ("convert_rows", "arrow_row::RowConverter::convert_rows")):
         fns = [F.fn(fid)] + [cl for cl in c.closures_of.get(F.fn(fid)["id"], []) if "mir" in cl]
